@@ -19,7 +19,7 @@ C02-c no lossy narrowing into on-disk LBA/size fields: a conversion to a narrowe
 C02-d GetStart/GetSize multiply in 64 bits (shared with C13-a).
 C02-e sector-unit discipline: in partition/gpt and partition/mbr a value counted in sectors (an LBA field of the table or Start/End of a partition) is converted to or from bytes only with the table's own sector size, never with a literal 512/4096 (the property quantifies over both logical sector sizes).
 C02-f one disk identity: if the header encoder can draw a random GUID without keeping it, every function that encodes the header twice (primary and backup) fixes Table.GUID first.
-C02-g names: the entry decoder uses utf16.Decode, so the encoder produces its code units with the utf16 package and never converts a rune straight to uint16.
+C02-g names: GPT names are UTF-16LE: the encoder produces its code units with the utf16 package and never converts a rune straight to uint16, and the decoder rebuilds runes with utf16.Decode/DecodeRune and never widens a single code unit to a rune.
 Not covered: Start/End/Size reconciliation arithmetic, UTF-16 name handling beyond 'same bytes', the mixed-endian GUID permutation, geometry formulas.`)
 }
 
@@ -41,7 +41,7 @@ func runC02(w *World, r *Report) {
 	c02Identity(w, r)
 	c02Names(w, r)
 	r.Floor("C02-f", r.countRule("C02-f"), 1)
-	r.Floor("C02-g", r.countRule("C02-g"), 1)
+	r.Floor("C02-g", r.countRule("C02-g"), 2)
 	r.Floor("C02-a", r.countRule("C02-a"), 3)
 	r.Floor("C02-e", r.countRule("C02-e"), 10)
 	r.Floor("C02-b", r.countRule("C02-b"), 3)
@@ -408,6 +408,21 @@ func c02Names(w *World, r *Report) {
 			}
 		}
 	})
-	r.Check(!decodes || (encodes && trunc == ""), "C02-g", fnName(enc), "names are encoded with the UTF-16 encoder the decoder inverts", w.relFile(enc.Pos()), "",
-		"the entry decoder rebuilds the name with utf16.Decode, but the encoder does not produce its code units with the utf16 package"+map[bool]string{true: " (a rune is converted straight to uint16 at " + trunc + ")", false: ""}[trunc != ""]+": a rune beyond U+FFFF is truncated instead of written as a surrogate pair and reads back as a different character")
+	r.Check(encodes && trunc == "", "C02-g", fnName(enc), "names are encoded with the UTF-16 encoder the decoder inverts", w.relFile(enc.Pos()), "",
+		"GPT partition names are UTF-16LE, but the encoder does not produce its code units with the utf16 package"+map[bool]string{true: " (a rune is converted straight to uint16 at " + trunc + ")", false: ""}[trunc != ""]+": a rune beyond U+FFFF is truncated instead of written as a surrogate pair and reads back as a different character")
+	// the decoder side: code units become runes through utf16.Decode / DecodeRune, never by widening a single unit
+	widen := ""
+	allInstrs(dec, func(ins ssa.Instruction) {
+		cv, ok := ins.(*ssa.Convert)
+		if !ok {
+			return
+		}
+		fb, ok1 := cv.X.Type().Underlying().(*types.Basic)
+		tb, ok2 := cv.Type().Underlying().(*types.Basic)
+		if ok1 && ok2 && fb.Kind() == types.Uint16 && tb.Kind() == types.Int32 {
+			widen = w.relFile(cv.Pos())
+		}
+	})
+	r.Check(decodes && widen == "", "C02-g", fnName(dec), "names are decoded with the UTF-16 decoder", w.relFile(dec.Pos()), "",
+		"GPT partition names are UTF-16LE, but the entry decoder does not turn its code units into runes with the utf16 package"+map[bool]string{true: " (a single code unit is widened to a rune at " + widen + ")", false: ""}[widen != ""]+": a surrogate pair is read back as two invalid characters instead of the rune that was written")
 }
